@@ -62,10 +62,20 @@ def scenarios(root):
 
     def add(name, kind, setup, op, old=OLD, new=None, payload=True, dest=None):
         def body(ctx):
-            job = signac.Project(pp).open_job(old) if kind != "init-by-id" else None
+            proj = signac.Project(pp)
+            job = proj.open_job(old) if kind != "init-by-id" else None
             C.mark("BEGIN")
-            op(job)
-            C.mark("END")
+            try:
+                op(job)
+            finally:
+                C.mark("END")
+                # the same session carries on: whatever the operation left in memory must not turn a handled error
+                # into damage later (repair and cache refresh are exactly what a user runs after an error)
+                for follow in (proj.repair, proj.update_cache):
+                    try:
+                        follow()
+                    except Exception:
+                        pass
         S[name] = dict(kind=kind, setup=setup, body=body, old=old, new=new, payload=payload, dest=dest)
 
     # init
@@ -115,8 +125,9 @@ def _swallow(fn):
         pass
 
 
-QUICK = ["init-fresh", "init-corrupt-file", "doc-access-initialises", "rekey-set-dest-absent", "rekey-assign-dest-initialised",
-         "rekey-assign-dest-empty-dir", "move-dest-absent", "clone-dest-absent", "remove", "clear", "reset"]
+QUICK = ["init-fresh", "init-corrupt-file", "doc-access-initialises", "rekey-set-dest-absent", "rekey-assign-dest-absent",
+         "rekey-assign-dest-initialised", "rekey-assign-dest-empty-dir", "move-dest-absent", "move-dest-initialised",
+         "clone-dest-absent", "clone-dest-initialised", "remove", "clear", "reset"]
 
 
 def applicable(op):
@@ -271,7 +282,7 @@ def eval_item(item):
                                                      f"({trace[i]['op']} {trace[i]['path']} {trace[i]['path2']}, {dec})"):
                         bad(k, m, dict(inp, trace=sig), step_op=trace[i]["op"], **e)
         elif part in ("fault", "fault2"):
-            sites = [i for i in steps if trace[i]["op"] in C.MUTATING or trace[i]["op"] == "open_r"]
+            sites = [i for i in steps if trace[i]["op"] in C.MUTATING or trace[i]["op"] in ("open_r", "open_d", "opendir")]
             plans = []
             if part == "fault":
                 for i in sites:
@@ -300,9 +311,24 @@ def eval_item(item):
                 if out[0] == "exc":
                     for k, m, e in recover_and_judge(root, scn, pre_tree, f"{desc} -> {out[1]}"):
                         bad(k, m, inp, step_op=trace[first]["op"], errno=plan[first], after_exception=True, **e)
+                    # the failed operation was rolled back completely: then repair() / update_cache() run afterwards in
+                    # the same session have nothing to do and must leave every job directory as it is
+                    end_tree = getattr(C.run_with, "last_end_tree", None)
+
+                    def _jobs(t):
+                        return {r: (k, h) for r, k, h in t if "/workspace/" in r and not r.endswith("~")
+                                and not os.path.basename(r).startswith("._")}
+                    if end_tree is not None and _jobs(end_tree) == _jobs(pre_tree) and _jobs(tree) != _jobs(pre_tree):
+                        d = canon.snap_diff(_jobs(pre_tree), _jobs(tree))
+                        bad("later-repair-damages-rolled-back-job", f"{desc} -> {out[1]}: the operation was rolled back, but "
+                            f"repair()/update_cache() in the same session then changed {d[:4]}", inp,
+                            step_op=trace[first]["op"], errno=plan[first])
                 else:
-                    if tree != final_tree:
-                        d = canon.snap_diff({r: (k, h) for r, k, h in final_tree}, {r: (k, h) for r, k, h in tree})
+                    # (the gzip header of the cache file written by the follow-up carries a timestamp)
+                    def _nc(t):
+                        return {r: (k, h) for r, k, h in t if not r.endswith("statepoint_cache.json.gz")}
+                    if _nc(tree) != _nc(final_tree):
+                        d = canon.snap_diff(_nc(final_tree), _nc(tree))
                         # an operation that returns normally although a call failed must have had its full effect
                         bad("silent-partial-success", f"{desc}: no exception reached the caller but the result differs from "
                             f"the fault-free result: {d[:5]}", inp, step_op=trace[first]["op"], errno=plan[first],
